@@ -1,0 +1,129 @@
+//go:build verif
+
+package cmd
+
+import (
+	"context"
+	"log/slog"
+	"net/url"
+	"os"
+	"os/signal"
+	"path/filepath"
+
+	"github.com/AdguardTeam/AdGuardDNS/internal/agdservice"
+	"github.com/AdguardTeam/AdGuardDNS/internal/debugsvc"
+	"github.com/AdguardTeam/AdGuardDNS/internal/dnsserver/ratelimit"
+	"github.com/AdguardTeam/AdGuardDNS/internal/errcoll"
+	"github.com/AdguardTeam/AdGuardDNS/internal/metrics"
+	"github.com/AdguardTeam/golibs/errors"
+	"github.com/AdguardTeam/golibs/logutil/slogutil"
+	"github.com/AdguardTeam/golibs/netutil/urlutil"
+	"github.com/AdguardTeam/golibs/service"
+	"github.com/prometheus/client_golang/prometheus"
+)
+
+// Verification hooks for property C09: the production wiring of the rate
+// limiter.  [VerifC09InitRateLimiter] runs the unchanged [parseConfig], the
+// start-up validation of the ratelimit section and of its URLs, and the builder
+// methods [builder.initGRPCMetrics] and [builder.initRateLimiter] (hence
+// [rateLimitConfig.toInternal], the allowlist updater of the configured type
+// and its initial refresh) on a configuration file and an environment given
+// by the harness.
+
+// VerifC09Env is the part of the environment [builder.initRateLimiter] reads.
+type VerifC09Env struct {
+	// ConsulAllowlistURL is CONSUL_ALLOWLIST_URL.
+	ConsulAllowlistURL *url.URL
+
+	// BackendRateLimitURL is BACKEND_RATELIMIT_URL.
+	BackendRateLimitURL *url.URL
+
+	// BackendRateLimitAPIKey is BACKEND_RATELIMIT_API_KEY.
+	BackendRateLimitAPIKey string
+}
+
+// VerifC09Wired is what [builder.initRateLimiter] has built.
+type VerifC09Wired struct {
+	// RateLimit is the limiter handed to the DNS service.
+	RateLimit *ratelimit.Backoff
+
+	// Refresher is what the debug API refreshes under the allowlist ID.
+	Refresher agdservice.Refresher
+}
+
+// VerifC09InitRateLimiter writes confYAML to a file in dir, reads it the way
+// [Main] does and initializes the rate limiter.  stage names the step that has
+// returned err.
+func VerifC09InitRateLimiter(
+	ctx context.Context,
+	dir string,
+	confYAML []byte,
+	env *VerifC09Env,
+	l *slog.Logger,
+	errColl errcoll.Interface,
+) (w *VerifC09Wired, stage string, err error) {
+	confPath := filepath.Join(dir, "config.yaml")
+	err = os.WriteFile(confPath, confYAML, 0o600)
+	if err != nil {
+		return nil, "write", err
+	}
+
+	c, err := parseConfig(confPath)
+	if err != nil {
+		return nil, "parse", err
+	}
+
+	err = c.RateLimit.validate()
+	if err != nil {
+		return nil, "validate", err
+	}
+
+	envs := &environment{
+		BackendRateLimitAPIKey: env.BackendRateLimitAPIKey,
+	}
+	if env.ConsulAllowlistURL != nil {
+		envs.ConsulAllowlistURL = &urlutil.URL{URL: *env.ConsulAllowlistURL}
+	}
+	if env.BackendRateLimitURL != nil {
+		envs.BackendRateLimitURL = &urlutil.URL{URL: *env.BackendRateLimitURL}
+	}
+
+	err = errors.Join(envs.validateRateLimitURLs(c, nil)...)
+	if err != nil {
+		return nil, "env", err
+	}
+
+	b := &builder{
+		baseLogger:     l,
+		conf:           c,
+		debugRefrs:     debugsvc.Refreshers{},
+		env:            envs,
+		errColl:        errColl,
+		logger:         l.With(slogutil.KeyPrefix, "builder"),
+		mtrcNamespace:  metrics.Namespace(),
+		promRegisterer: prometheus.NewRegistry(),
+		sigHdlr: service.NewSignalHandler(&service.SignalHandlerConfig{
+			Logger:          l,
+			ShutdownTimeout: shutdownTimeout,
+		}),
+	}
+
+	// The signal handler of the builder must not take over the signals of the
+	// harness process.
+	signal.Reset()
+
+	err = b.initGRPCMetrics(ctx)
+	if err != nil {
+		return nil, "grpc metrics", err
+	}
+
+	err = b.initRateLimiter(ctx)
+	if err != nil {
+		return nil, "init", err
+	}
+
+	return &VerifC09Wired{
+		RateLimit: b.rateLimit,
+		Refresher: b.debugRefrs[debugIDAllowlist],
+	}, "", nil
+}
